@@ -70,6 +70,13 @@ SPEC = {
     "power-b5": ("PowerRTransform", {"rmin": 0.2, "rmax": 9.0, "b": 5.0}, False, HALF, False),
     "exp-b5": ("ExpRTransform", {"rmin": 0.2, "rmax": 9.0, "b": 5.0}, False, HALF, False),
     "lininf-b5": ("LinearInfiniteRTransform", {"rmin": 0.1, "rmax": 7.0, "b": 5.0}, False, HALF, False),
+    # r = a x / (1 - b x): pole at 1/b = 50 far beyond the interval; the class refuses arrays of more than 1/b points (scalar start point: fixed in 95aa1f6)
+    "hyperbolic": ("HyperbolicRTransform", {"a": 1.2, "b": 0.02}, False, HALF, False),
+    "inv-hyperbolic": ("HyperbolicRTransform", {"a": 1.2, "b": 0.02}, True, HALF, False),
+    "inv-power-b5": ("PowerRTransform", {"rmin": 0.1, "rmax": 9.0, "b": 5.0}, True, HALF, True),
+    "inv-exp-b5": ("ExpRTransform", {"rmin": 0.1, "rmax": 9.0, "b": 5.0}, True, HALF, True),
+    "inv-lininf-b5": ("LinearInfiniteRTransform", {"rmin": 0.1, "rmax": 7.0, "b": 5.0}, True, HALF, True),
+    "inv-identity": ("IdentityRTransform", {}, True, HALF, True),
     "none-pm1": (None, {}, False, PM1, False),
     "becke": ("BeckeRTransform", {"rmin": 0.1, "R": 1.2}, False, PM1, False),
     "linearfinite": ("LinearFiniteRTransform", {"rmin": 0.5, "rmax": 4.0}, False, PM1, False),
@@ -204,9 +211,14 @@ def _solve_case(arg):
                 if solver == "bvp" and tname in DECREASING and ("strictly increasing" in msg or "increasing" in msg):
                     res.inadm()
                     return res.as_dict()
-                if "didn't converge" in msg or "did not converge" in msg:
+                if "hyperbolic" in tname and "b*(npoint-1) must be smaller than one" in msg:
+                    # documented restriction of the class (b (N - 1) < 1 for an array of N points): a clean refusal
                     res.inadm()
-                    res.note(f"inadmissible (solver reported non-convergence): {tag} {tname} {variant}")
+                    return res.as_dict()
+                if "didn't converge" in msg or "did not converge" in msg:
+                    # every problem of the alphabet is smooth and well-posed and converges on the unchanged tree for every
+                    # seed tried: a solve that gives up has not returned "the solution of the stated problem"
+                    res.violation(f"{tag}:did-not-converge", f"{case}: {msg}", case)
                     return res.as_dict()
                 res.violation(f"{tag}:raised:ValueError", f"{case}: {msg}", case)
                 return res.as_dict()
@@ -284,9 +296,15 @@ def _dr_dx(tname, xv):
     if name == "HandyModRTransform":
         tm, sz = 2.0 ** p["m"], p["rmax"] - p["rmin"]
         guess = 2 * ((xv - p["rmin"]) * (sz - tm + 1) / ((xv - p["rmin"]) * (sz - tm) + sz)) ** (1 / p["m"]) - 1
-    # bracketed (real) root inside the map's domain (-1, 1)
-    t = mp.findroot(lambda u: f(u) - mp.mpf(xv), (mp.mpf("-0.999999999999"), mp.mpf("0.999999999999")), solver="illinois",
-                    tol=mp.mpf("1e-25"), maxsteps=200)
+    # bracketed (real) root inside the map's domain: (-1, 1), or the half-line / index interval of the b-scaled maps
+    lo, hi = mp.mpf("-0.999999999999"), mp.mpf("0.999999999999")
+    if name == "HyperbolicRTransform":
+        lo, hi = mp.mpf(0), mp.mpf(1) / mp.mpf(p["b"]) * (1 - mp.mpf("1e-12"))
+    elif name in ("PowerRTransform", "ExpRTransform", "LinearInfiniteRTransform"):
+        lo, hi = mp.mpf(0), mp.mpf(p["b"]) * (1 - mp.mpf("1e-12") * (name == "LinearInfiniteRTransform"))
+    elif name == "IdentityRTransform":
+        lo, hi = mp.mpf(0), mp.mpf(1000)
+    t = mp.findroot(lambda u: f(u) - mp.mpf(xv), (lo, hi), solver="illinois", tol=mp.mpf("1e-25"), maxsteps=200)
     return float(1 / mp.diff(f, t))
 
 
